@@ -545,6 +545,12 @@ type FunctionLiteral struct {
 }
 
 func (fl FunctionLiteral) lambdaPrint(out *PrintState) *PrintState {
+	// => binds looser than most operators: as an operand (1 - (x=>x)(2)), when called or indexed, the
+	// lambda needs its parentheses back or the text re-parses as something else (or not at all).
+	wrap := out.AllParens || out.ExpressionPrecedence > LAMBDA
+	if wrap {
+		out.Print("(")
+	}
 	needParen := len(fl.Parameters) != 1
 	if needParen {
 		out.Print("(")
@@ -559,6 +565,9 @@ func (fl FunctionLiteral) lambdaPrint(out *PrintState) *PrintState {
 		out.Print(" => ")
 	}
 	fl.Body.PrettyPrint(out)
+	if wrap {
+		out.Print(")")
+	}
 	return out
 }
 
@@ -589,9 +598,11 @@ type CallExpression struct {
 }
 
 func (ce CallExpression) PrettyPrint(out *PrintState) *PrintState {
-	ce.Function.PrettyPrint(out)
-	out.Print("(")
 	oldExpressionPrecedence := out.ExpressionPrecedence
+	out.ExpressionPrecedence = CALL // so a called lambda is parenthesized: (x=>x+1)(3)
+	ce.Function.PrettyPrint(out)
+	out.ExpressionPrecedence = oldExpressionPrecedence
+	out.Print("(")
 	out.ExpressionPrecedence = LOWEST
 	out.ComaList(ce.Arguments)
 	out.ExpressionPrecedence = oldExpressionPrecedence
